@@ -6,5 +6,5 @@ def run(chk, ctx):
     chk.cov['rule'] = ("random elections (long chains with nested surpluses) x Gregory-family rules x arithmetics; scope: every ballot's index and raw "
                        "weight at every action plus tallies/statuses; oracle: P1 no hopeful skipped, P3 tally = sum of ballot values, P4 weights change "
                        "only at a surplus transfer to the prescribed truncated value, elected keeps the quota, 0<=w'<=w<=1")
-    cc.run(chk, ctx, 'ballots', ORACLES, 800, 80000, rules=cd.GREGORY, families=['chain', 'chain', 'small', 'tie', 'nearquota', 'bigmult', 'mid', 'exactquota', 'exactquota', 'coalition'])
+    cc.run(chk, ctx, 'ballots', ORACLES, 800, 80000, rules=cd.GREGORY, families=['chain', 'chain', 'small', 'tie', 'nearquota', 'bigmult', 'hugemult', 'mid', 'exactquota', 'exactquota', 'coalition'])
 def replay(chk, payload): return cc.replay(chk, payload, ORACLES)
